@@ -36,6 +36,9 @@ CHECKS = {
     "C31": C("c31", dict(checks=4000, shards=2, timeout=300), dict(checks=40000, shards=16, timeout=3000),
              "property-based testing (rapid): round trips of generated feature IDs through every encoding, and order laws on generated triples with a differential against the compact index order",
              "Trusted: encoders/decoders of encoding/json, gopkg.in/yaml.v2 and protobuf. IDs in the postcode and ONS alias namespaces are restricted to values the packers produce (other values have no alias form). Namespaces exclude control characters."),
+    "C34": C("c34", dict(checks=5000, shards=2, timeout=300), dict(checks=50000, shards=16, timeout=3000),
+             "property-based testing (rapid): differential against two recursive reference implementations plus validity predicates (first/last kept, subsequence)",
+             "Trusted: the two recursive references (the repository's own via hook VerifReferenceDouglasPeuckerSimplify, and one in the harness using the same tie and split conventions). Finite coordinates, non-negative tolerance, at least 2 points."),
     "C39": C("c39", dict(checks=5000, shards=2, timeout=300), dict(checks=100000, shards=16, timeout=1800),
              "property-based testing (rapid): generated operation sequences on b6.Tags compared step by step with an ordered-list reference model; shrunk failing case saved as JSON replay",
              "Trusted: the ordered-list model in harness/c39; keys are distinct and non-empty as the property states; values are string expressions."),
